@@ -19,6 +19,7 @@ import (
 	"go/constant"
 	"go/token"
 	"go/types"
+	"os"
 	"sort"
 	"strings"
 	"unicode"
@@ -606,6 +607,7 @@ func checkC08(w *World, r *Report) {
 	checkTagTextConsumed(w, r, "R08.17")
 	checkOneEvaluator(w, r)
 	checkConstructorsKeepRoles(w, r)
+	checkStringLiteralsDecodedAlike(w, r)
 	checkNumberFormatting(w, r)
 	checkMembershipEquality(w, r, evalCases)
 	checkRelationalNumericFirst(w, r, evalCases)
@@ -2234,4 +2236,112 @@ func checkConstructorsKeepRoles(w *World, r *Report) {
 		})
 	}
 	r.floor("operand stores in operator-node constructors", n, 3)
+}
+
+// checkStringLiteralsDecodedAlike — R08.20: a string literal is worth the same wherever it is
+// parsed.  Where the parser builds a LiteralNode from the Value of a token it found to be a
+// TOKEN_STRING, the value goes through a decoding function of the package if any such site does
+// (the primary-expression parser decodes escape sequences): a shortcut that wraps the raw token
+// value gives `'it\'s'` another value in that position — `{% set v = 'it\'s' %}` is then not equal
+// to `'it\'s'` in an expression.
+func checkStringLiteralsDecodedAlike(w *World, r *Report) {
+	strKind, _ := w.lookup("TOKEN_STRING").(*types.Const)
+	if strKind == nil {
+		cannotDecide("TOKEN_STRING is not a constant")
+	}
+	newLit := w.fn("NewLiteralNode")
+	reach := w.parseReachable()
+	type site struct {
+		fn      *ssa.Function
+		in      ssa.Instruction
+		decoder string
+	}
+	var sites []site
+	underStringKind := func(in ssa.Instruction) bool {
+		b := in.Block()
+		for d := b.Idom(); d != nil; d = d.Idom() {
+			c, trueIdx, ok := ifCond(d)
+			if !ok {
+				continue
+			}
+			// which way leads here?
+			t, f := d.Succs[trueIdx], d.Succs[1-trueIdx]
+			viaT := t == b || blockReachesAvoiding(t, b, d)
+			viaF := f == b || blockReachesAvoiding(f, b, d)
+			if viaT == viaF {
+				continue
+			}
+			var facts []condFact
+			expandCond(c, viaT, &facts, 0)
+			for _, cf := range facts {
+				bo, ok := cf.v.(*ssa.BinOp)
+				if !ok || bo.Op != token.EQL || !cf.truth {
+					continue
+				}
+				for _, side := range []ssa.Value{bo.X, bo.Y} {
+					if k, ok := side.(*ssa.Const); ok && k.Value != nil && k.Value.Kind() == constant.Int && constant.Compare(k.Value, token.EQL, strKind.Val()) {
+						if os.Getenv("TWIGCHECK_DEBUG") != "" {
+							fmt.Fprintf(os.Stderr, "R08.20 %s: under %s (block %d, truth %v)\n", curWorld.posOf(in.Pos()), bo.String(), d.Index, viaT)
+						}
+						return true
+					}
+				}
+			}
+		}
+		return false
+	}
+	for _, fn := range w.pkgFuncs() {
+		if !reach[fn] {
+			continue
+		}
+		instrsOf(fn, func(in ssa.Instruction) {
+			c, ok := in.(*ssa.Call)
+			if !ok || calleeFunc(c) != newLit || len(c.Call.Args) < 1 {
+				return
+			}
+			mi, ok := c.Call.Args[0].(*ssa.MakeInterface)
+			if !ok || !isString(mi.X.Type()) {
+				return
+			}
+			// the string: Token.Value directly, or a package function applied to it
+			v := unspill(mi.X)
+			decoder := ""
+			if call, ok := v.(*ssa.Call); ok {
+				if g := call.Call.StaticCallee(); g != nil && isTwigFn(g) && len(call.Call.Args) == 1 {
+					decoder = g.Name()
+					v = unspill(call.Call.Args[0])
+				}
+			}
+			fromToken := false
+			for _, o := range originChain(v) {
+				if _, ok := fieldLoad(o, "Token", "Value"); ok {
+					fromToken = true
+				}
+				if fl, ok := o.(*ssa.Field); ok {
+					if st, ok := fl.X.Type().Underlying().(*types.Struct); ok && st.Field(fl.Field).Name() == "Value" && isNamed(fl.X.Type(), twigPath, "Token") {
+						fromToken = true
+					}
+				}
+			}
+			if !fromToken || !underStringKind(in) {
+				return
+			}
+			sites = append(sites, site{fn, in, decoder})
+		})
+	}
+	ref := ""
+	for _, s := range sites {
+		if s.decoder != "" {
+			ref = s.decoder
+		}
+	}
+	for _, s := range sites {
+		construct := "string literal decoded like at the sibling sites"
+		if s.decoder == ref {
+			r.ok("R08.20", ssaName(s.fn), construct, w.posOf(s.in.Pos()), "through "+ref, true)
+		} else {
+			r.bad("R08.20", ssaName(s.fn), construct, w.posOf(s.in.Pos()), "the token's raw text becomes the literal's value here, while the expression parser decodes it with "+ref+": escape sequences (\\', \\\\, \\n) are kept verbatim in this position, so the same literal has two different values")
+		}
+	}
+	r.floor("LiteralNodes built from string tokens", len(sites), 1)
 }
